@@ -25,6 +25,10 @@ WINDOW = ["span.end.checked", "span.end.taskended", "span.end.marked"]
 MARKFIRST = ["span.end.marked", "span.end.taskended"]
 
 
+PROVIDER_ACTIONS = {"SCall", "SLock", "SSet", "SProc", "Reent", "SWait", "SClear", "SUnlock", "SRet", "UCall", "ULock", "UCheck",
+                    "UShut", "URemove", "UUnlock", "URet", "GLock", "GCheck", "GUnlock"}
+
+
 def tla_set(prefix, n):
     return "{" + ", ".join('"%s%d"' % (prefix, i + 1) for i in range(n)) + "}"
 
@@ -33,17 +37,28 @@ def udefs(user=0, evm=0, lim=0, pan=0, mshape="locked", pshape="locked", shares=
     """User-code dimension: the first `user` mutators are RecordError calls with a gate error, the first `evm`
     mutators append one event to the FIFO (limit `lim`, `lim` events recorded beforehand), the first `pan` enders
     call End deferred during a panic."""
-    return {"USERMUT": tla_set("m", user), "EVMUT": tla_set("m", evm), "EVLIMIT": lim,
+    return {"SAMPLED": "TRUE", "CHILDGUARD": "recording", "STOPPERS": "{}", "UNREGS": "{}", "WAITFOR": "{}", "PRECHECK": "TRUE",
+            "REENTREG": "FALSE", "UNREGSHAPE": "locked",
+            "USERMUT": tla_set("m", user), "EVMUT": tla_set("m", evm), "EVLIMIT": lim,
             "EVINIT": "<<" + ", ".join('"i%d"' % (i + 1) for i in range(lim)) + ">>", "PANICKERS": tla_set("e", pan),
             "MSHAPE": mshape, "PSHAPE": pshape, "SNAPSHARES": "TRUE" if shares else "FALSE"}
 
 
-def mc_defs(e, m, c, r, p, rt, g, shape, known, shared=1, u=None):
+def mc_defs(e, m, c, r, p, rt, g, shape, known, shared=1, u=None, pv=None):
     d = udefs() if u is None else u
     if u is not None:
         shared = 0
     d.update(_mc_defs(e, m, c, r, p, rt, g, shape, known, shared))
+    d.update(pv or {})
     return d
+
+
+def pdefs(sampled=True, guard="recording", stoppers=0, unregs=0, waitfor=(), precheck=True, reent=False, unreg="locked"):
+    """Sampling decision of the span and the provider-level processes (TracerProvider.Shutdown / Unregister callers,
+    re-entrant Register from a processor's Shutdown, workers that Shutdown waits for)."""
+    return {"SAMPLED": "TRUE" if sampled else "FALSE", "CHILDGUARD": guard, "STOPPERS": tla_set("s", stoppers),
+            "UNREGS": tla_set("u", unregs), "WAITFOR": "{" + ", ".join('"g%d"' % i for i in waitfor) + "}",
+            "PRECHECK": "TRUE" if precheck else "FALSE", "REENTREG": "TRUE" if reent else "FALSE", "UNREGSHAPE": unreg}
 
 
 def _mc_defs(e, m, c, r, p, rt, g, shape, known, shared=1):
@@ -59,7 +74,8 @@ def cfg_name(e, m, c, r, p, rt, g, shape=""):
 
 def sc(name, script=None, **kw):
     d = dict(name=name, rt=True, nprocs=1, enders=2, endsPer=1, ts=True, muts=[], mutsPer=1, children=0, readers=0,
-             readsPer=1, etimers=0, regs=0, lim=0, panickers=0, perturb=0.0)
+             readsPer=1, etimers=0, regs=0, lim=0, panickers=0, recordOnly=False, stoppers=0, unregs=0, reentReg=False,
+             waitFor=0, perturb=0.0)
     d.update(kw)
     if script is not None:
         d["script"] = script
@@ -107,6 +123,14 @@ def directed(shape):
     out.append(sc("panic-format-and-recorderror", ["e1@call", "e1@panic.Format+", "m1@call", "e2@call", "e1@panic.Format",
                                                    "e1@ret+", "m1@ret+", "e2@ret+"],
                   enders=2, panickers=1, muts=["uerror"], lim=2, nprocs=1, rt=False))
+    # the provider's Shutdown runs the processors' Shutdown (user code: natural gate s@proc.Shutdown) while it holds
+    # p.mu: a re-entrant RegisterSpanProcessor from there, or a worker it waits for, must return (isShutdown pre-check)
+    out.append(sc("shutdown-reentrant-register-while-End", ["e1@call", "e1@span.end.marked+", "s1@call", "s1@proc.Shutdown+",
+                                                            "e1@span.end.marked", "s1@proc.Shutdown", "s1@ret+", "e1@ret+", "e2@call", "e2@ret+"],
+                  enders=2, stoppers=1, reentReg=True, nprocs=2))
+    out.append(sc("shutdown-waits-for-register-worker", ["s1@call", "s1@proc.Shutdown+", "s1@proc.Shutdown", "g1@call", "g1@ret+",
+                                                         "s1@ret+", "e1@call", "e1@ret+"],
+                  enders=1, stoppers=1, regs=1, waitFor=1, nprocs=1, recordOnly=True))
     for rt in (True, False):
         tag = "rt" if rt else "nort"
         # plain sequential double End: second call must do nothing
@@ -127,6 +151,9 @@ def directed(shape):
         out.append(sc("mutators-before-end-" + tag, ["m1@call", "m1@ret+", "m2@call", "m2@ret+", "m3@call", "m3@ret+", "c1@call",
                                                      "c1@ret+", "r1@call", "r1@ret+", "e1@call", "e1@ret+"],
                       rt=rt, enders=1, nprocs=3, muts=["status", "name", "link"], children=1, readers=1, ts=False))
+    # the same schedules once more on a RecordOnly span (recording, not sampled): nothing may differ
+    out += [dict(d, name=d["name"] + "-recordonly", recordOnly=True) for d in out
+            if d["name"].startswith(("held-after-mark", "mutators-before-end", "mutate-inside", "panic-format-while"))]
     return out
 
 
@@ -159,6 +186,8 @@ def run(ctx):
     ctx.extra["end_shape"] = shape if (replay or not hooks) else "unknown"
     uc = pr.get("user_code") or {}
     ms, ps = uc.get("mshape", "unknown"), uc.get("pshape", "unknown")   # locked | recheck | norecheck | unknown
+    prv = pr.get("provider") or {}
+    precheck, unreg = bool(prv.get("precheck", True)), prv.get("unreg", "locked")
     known_model = (shape == "window")
 
     # ------------------------------------------------------------ exhaustive model checking
@@ -197,9 +226,28 @@ def run(ctx):
                         defines=mc_defs(*c, shape=shape, known=known_model and c[5], u=udefs(*u, mshape=ms, pshape=ps)),
                         must_pass=dev_tree is False, coverage=True)
             zero &= set(r["zero_cov"])
+    # sampling decision and provider lock: RecordOnly span with children; Shutdown holding p.mu while the processors'
+    # Shutdown registers re-entrantly / waits for a registering worker; Unregister. Shapes as probed.
+    ctx.tlc(S, "MC_SpanEnd", "MC_SpanEnd.cfg", name="mc-recordonly", timeout=1200,
+            defines=mc_defs(2, 1, 1, 1, 2, True, 0, shape, known_model, pv=pdefs(sampled=False)))
+    r = ctx.tlc(S, "MC_SpanEnd", "MC_SpanEnd.cfg", name="mc-provider", timeout=1200, must_pass=precheck, coverage=True,
+                defines=mc_defs(2, 0, 0, 0, 1, False, 2, shape, False,
+                                pv=pdefs(stoppers=1, waitfor=(2,), reent=(unreg == "unlocked"), unregs=1, unreg=unreg, precheck=precheck)))
+    zero_p = set(r["zero_cov"])
+    for nm, pvd, want in (("D5-child-guard-sampled", pdefs(sampled=False, guard="sampled"), "Contract"),
+                          ("no-precheck-reentrant-register", pdefs(stoppers=1, reent=True, precheck=False), "Deadlock"),
+                          ("no-precheck-worker", pdefs(stoppers=1, waitfor=(1,), precheck=False), "Deadlock"),
+                          ("D4-unregister-under-lock-reentrant", pdefs(unregs=1, reent=True, unreg="locked"), "Deadlock"),
+                          ("unregister-outside-lock-reentrant", pdefs(unregs=1, stoppers=1, reent=True, unreg="unlocked"), None)):
+        r = ctx.tlc(S, "MC_SpanEnd", "MC_SpanEnd.cfg", name="mc-" + nm, timeout=600, must_pass=want is None, count=False,
+                    defines=mc_defs(1, 0, (1 if "D5" in nm else 0), 0, 1, False, 1, "markfirst", False, pv=pvd))
+        got = r["violated"] or ("Deadlock" if "Deadlock" in (r["error"] or "") else None)
+        if want is not None and got != want:
+            ctx.note_inconclusive("model drift: TLC no longer finds %s (%s, got %s)" % (nm, want, got))
     # vacuity: every action of SpanEnd.tla is taken somewhere (Terminated is the final stuttering step; the
     # window actions do not exist in the markfirst shape, ERecheck only in the recheck shape)
-    absent = ({"Terminated", "Next"} | ({"EUnlockForTask", "ERelock"} if shape == "markfirst" else set())
+    zero = {a for a in zero if a not in PROVIDER_ACTIONS} | (zero_p & PROVIDER_ACTIONS)
+    absent = ({"Terminated", "Next"} | ({"Reent"} if precheck and unreg == "locked" else set()) | ({"EUnlockForTask", "ERelock"} if shape == "markfirst" else set())
               | (set() if shape == "recheck" else {"ERecheck"})
               | {"locked": {"EPanicUnlock", "EPanicRelock", "EPanicRecheck"}, "norecheck": {"EPanicRecheck"}, "recheck": set()}.get(
                   ps, {"EPanicUnlock", "EPanicRelock", "EPanicRecheck", "EPanicFormat", "EPanicAddEvent", "MApplyEv", "MUser", "MPreCheck"})
@@ -229,12 +277,12 @@ def run(ctx):
     if replay:
         seen = set()
 
-        def behaviours(c, r, tag, u=None, only_bad=False, limit=None):
+        def behaviours(c, r, tag, u=None, only_bad=False, limit=None, xkw=None):
             e, m, ch, rd, np_, rt, g = c
-            muts, kw = ["attrs", "event"][:m], {}
+            muts, kw = ["attrs", "event"][:m], dict(xkw or {})
             if u is not None:   # (user, evm, lim, pan): see udefs
                 muts = ["uerror" if i < u[0] else "event" if i < u[1] else "attrs" for i in range(m)]
-                kw = dict(lim=u[2], panickers=u[3])
+                kw.update(lim=u[2], panickers=u[3])
             n = 0
             for s in r["prints"]:
                 if isinstance(s, str) and s.startswith("BEHAVIOUR ") and s not in seen:
@@ -292,6 +340,17 @@ def run(ctx):
                             defines=mc_defs(*c, shape=shape, known=True, u=udefs(*u, **dev)), timeout=1800, count=False)
                 ctx.extra["deviation_schedules"] = ctx.extra.get("deviation_schedules", 0) + \
                     behaviours(c, r, "udev", u=u, only_bad=True, limit=(12 if thorough else 4))
+        # sampling decision RecordOnly (every clause is independent of it) and provider-level processes
+        c = (2, 1, 1, 1, 2, True, 0)
+        r = ctx.tlc(S, "MC_SpanEndSim", "MC_SpanEndSim.cfg", workers=1, simulate="num=%d" % nsim, depth=400, name="sim-recordonly",
+                    defines=mc_defs(*c, shape=shape, known=True, pv=pdefs(sampled=False)), timeout=900)
+        behaviours(c, r, "ro", xkw=dict(recordOnly=True))
+        if precheck:
+            c = (2, 0, 0, 0, 2, False, 1)
+            pvd = pdefs(stoppers=1, waitfor=(1,), reent=True, unregs=(1 if unreg == "unlocked" else 0), unreg=unreg)
+            r = ctx.tlc(S, "MC_SpanEndSim", "MC_SpanEndSim.cfg", workers=1, simulate="num=%d" % nsim, depth=400, name="sim-provider",
+                        defines=mc_defs(*c, shape=shape, known=True, pv=pvd), timeout=900)
+            behaviours(c, r, "prov", xkw=dict(stoppers=1, waitFor=1, reentReg=True, unregs=(1 if unreg == "unlocked" else 0)))
         nbeh = len(scenarios)
         for rep in range(5 if thorough else 2):
             scenarios += directed(shape)
@@ -329,6 +388,9 @@ def run(ctx):
         if i == 0:
             ctx.add_samples(res["samples"][:1])
     # ------------------------------------------------------------ thorough: the same under the race detector
+    # ------------------------------------------------------------ re-entrant processors (callbacks calling back into the API)
+    tf, res = harness(binp, "reent", "reent", [])
+    traces.append((tf, "reent"))
     # ------------------------------------------------------------ hook-free volume stress (one line per span)
     nb = 160000 if thorough else 40000
     tf, res = harness(binp, "bulk", "bulk", ["-n", str(nb), "-enders", "4"])
@@ -381,6 +443,8 @@ def run(ctx):
             scen.reverse()
             sig = {"kind": kind, "rt": w["rt"], "overlap": w["overlap"],
                    "win": (w["win"] if w["hooks"] else "no-hooks"), "source": label.replace("race-", "")}
+            if kind == "deadlock":   # chains of API / callback frames of the parked goroutines, outermost first
+                sig["where"] = w["detail"]
             ctx.violation(sig, replay={"violation": v, "scenario_name": cfg.get("name", ""), "events": scen[-400:]})
     ctx.extra["violation_kinds_seen"] = kinds
     # spec -> code binding: a behaviour that was followed step by step must end as TLC predicted
